@@ -146,6 +146,11 @@ def observe(e, sw, mode='native'):
             r = 'skipped'
         else:
             r = 'failed:' + type(s['exc_info'][1]).__name__
+            # where the failure is reported: a re-run must not report the place of an earlier failure
+            try:
+                r += '@line-offset %r' % (e.failed_line_offset(),)
+            except Exception as ex2:
+                r += '@failed_line_offset raised %s' % type(ex2).__name__
     except BaseException as ex:
         r = 'RAISED:' + type(ex).__name__
     mod = sys.modules.get(e.modname)
